@@ -58,6 +58,18 @@ META = {
     'C18': dict(cat='exploration', technique='model-based testing of configuration histories: every entry point compared with pformat given all effective settings explicitly',
                 text='Histories of set_default_config / get_default_config / print through 8 entry points with each setting explicit or defaulted: all agree with the reference text (+ end), and the defaults equal the model after every step. Single-setting changes are enumerated exhaustively for every entry point.',
                 note='pformat with every setting explicit is the reference; defaults restored through the API.', ref='3/C18'),
+    'C03': dict(cat='exploration', technique='metamorphic property-based testing: AST of the output compared across generated configuration sets (small-tree alphabet and corpus x configuration grid + Hypothesis)',
+                text='Values of every printable family (built-ins, comments, stdlib instances, subclass instances, pretty_call objects) under 5-7 configurations each (extremes, default, around the one-line length, random): identical ast.dump everywhere, and every non-blank line indented by a multiple of indent.',
+                note='ast.dump equality defines "same syntax tree"; recursion markers are not generated.', ref='3/C03'),
+    'C12': dict(cat='exploration', technique='growth-law testing: package LINE events (sys.monitoring) at n, 2n, 4n, 8n for fixed and Hypothesis-drawn input families, with step caps deciding termination',
+                text='Families from the statement (nestings of every container/call kind, wide sequences, long strings with/without break opportunities, strings nested until no width is left, comments on every level) and random wrapper recipes: steps(2n)/steps(n) <= 12 at three doublings, every run capped so that exponential behaviour is reported after bounded work.',
+                note='Evidence of a growth law at four points, not a proof; known finding D19 (commented dict values) is excluded by construction and its witness family reported.', ref='3/C12'),
+    'C19': dict(cat='exploration', technique='metamorphic testing over call histories: permutations/repetitions with allocator perturbation and rebuilt equal values, deep before/after snapshots, plus first-print-in-a-fresh-interpreter comparison',
+                text='Corpora drawn from all generators (incl. mixed-type sorted keys, lazily registered stdlib types, struct sequences, commented values, cyclic graphs) printed in random histories: every (object, settings) gives one text, rebuilt equal values give the same text, inputs are unchanged (deep snapshot), and 24 corpus values printed first in a fresh interpreter equal the warm text.',
+                note='Rebuilt-value comparison leaves out values holding nan and sorted dicts (identity-based hash / unspecified tie-break); recursion-marker ids are masked.', ref='3/C19'),
+    'C20': dict(cat='exploration', technique='schedule enumeration with a deterministic line-level scheduler (sys.settrace): all one-preemption schedules of 13 program pairs, Hypothesis-drawn 2-4 preemption schedules over 2-3 threads; sequential oracle',
+                text='Threads first-printing lazily registered classes, subclasses, directly registered and unregistered classes: under every one-preemption schedule at package-line granularity and sampled multi-preemption schedules each call returns its sequential text and none raises.',
+                note='Line granularity under the GIL; switches inside a line or inside C code are not explored; controller timeout = harness error.', ref='3/C20'),
 }
 
 ALL_IDS = ['C%02d' % i for i in range(1, 21)]
